@@ -16,6 +16,7 @@ ENGINE = "net"
 LEVEL = "exploration"
 TECHNIQUE = "deterministic simulation: seeded write grouping + wire segmentation between two real TelnetTransports"
 QUICK_RUNS = 60000
+TWIN_P = 0.08   # this share of the runs drives two independent instances of the scenario one after the other (detsim.runner._run_scenario)
 BATCH = 200
 COMPONENTS = {"real": ["twisted.conch.telnet.TelnetTransport.write/writeSequence", "twisted.conch.telnet.Telnet.dataReceived"],
               "stub": ["TCP transport and delivery segmentation (detsim.net.Link)"]}
